@@ -62,6 +62,16 @@ prop("C13", True,
      "dominance-ordered field use + sibling-loop cross-check + dominating-condition extraction + provenance over go/ssa",
      "DESIGN.md §2 C13")
 
+prop("C06", True,
+     "Static check of the routing mechanism for all configurations and events: EventBus.Send delivers the same event to each subscriber in subscription order with no "
+     "condition or early exit, Subscribe appends (and nothing else writes the list); filterChannel.Send reaches the inner Send exactly under FilterFn(e)==true; tokenChannel.Send forwards "
+     "unconditionally with event.Token(mc.Token) applied; the regex filter closure admits iff some compiled matcher matches e.Get(field), rejects only after all were tried, one matcher per expression; "
+     "Run's wiring: per (filter, name) exactly one Subscribe of channels[name] wrapped by TokenChannel(hc.token), category/service filters applied iff their list is non-empty with key/field pairing, "
+     "unknown names skipped, decoded filter struct fresh per [[filter]]. Does not decide regexp semantics, back-end delivery, or ordering across concurrent senders.",
+     "Trusts regexp and sync.Map; the bus is assumed to be called synchronously by senders.",
+     "shape + dominating-condition extraction + wrapper-chain provenance + who-may-write over go/ssa",
+     "DESIGN.md §2 C06")
+
 PENDING = {
  "C01": "check not built yet in this revision (design: DESIGN.md §2 C01)",
 }
